@@ -321,7 +321,7 @@ func checkC07Precedence(p *Prog, r *Report, ru *Rule) {
 	}
 	mach.OnInstr = func(run *Run, i ssa.Instruction, deferred bool) bool {
 		if ret, ok := i.(*ssa.Return); ok && 2 == len(ret.Results) {
-			run.Emit("ret:%s|%s", run.Eval(ret.Results[0]), run.Eval(ret.Results[1]))
+			run.Emit("ret:%s|%s", run.Eval(retVal(ret, 0)), run.Eval(retVal(ret, 1)))
 		}
 		return false
 	}
@@ -501,11 +501,11 @@ func checkC07Reread(p *Prog, r *Report, ru *Rule, sh *ssa.Function) {
 		if !ok || !edgeDominates(emptyIf, setSucc, ret) {
 			continue
 		}
-		if !isNilConst(ret.Results[1]) {
+		if !isNilConst(retVal(ret, 1)) {
 			continue /* Error return. */
 		}
 		nret++
-		rs := valueRoots(ret.Results[0], func(n string) bool {
+		rs := valueRoots(retVal(ret, 0), func(n string) bool {
 			switch n {
 			case "(*text/template.Template).Parse", "text/template.Must", "(*text/template.Template).Funcs", "(*text/template.Template).Option":
 				return true
